@@ -414,3 +414,577 @@ Proof.
     by (vm_compute; reflexivity).
   rewrite F in H. discriminate H.
 Qed.
+
+(* ------------------------------------------------------------------ configuration recorded in descriptors; configure; uid supply *)
+
+(* like rel_go2, remembering the outcome of every test *)
+Ltac rel_go3 tac :=
+  lazymatch goal with
+  | |- rel _ (bind (compose_event _ _ _) _) =>
+      apply (rel_bind_val _ _ _ (fun ev => not_descr ev = true));
+      [ intros ? ? ?; apply compose_event_is_event | rel_go3 tac | intros ? ?; rel_go3 tac ]
+  | |- rel _ (bind (compose_stop _ _) _) =>
+      apply (rel_bind_val _ _ _ (fun ev => not_descr ev = true));
+      [ intros ? ? ?; apply compose_stop_is_stop | rel_go3 tac | intros ? ?; rel_go3 tac ]
+  | |- rel _ (bind _ _) => apply rel_bind; [ rel_go3 tac | intro; rel_go3 tac ]
+  | |- rel _ (ret _) => apply rel_ret
+  | |- rel _ (fail _) => apply rel_fail
+  | |- rel _ get => apply rel_get
+  | |- rel _ (guard _ _) => apply rel_guard
+  | |- rel _ (of_opt _ _) => apply rel_of_opt
+  | |- rel _ (of_res _) => apply rel_of_res
+  | |- rel _ (modify _) => apply rel_modify; intro; tac
+  | |- rel _ (iterM _ _) => apply rel_iterM; intro; rel_go3 tac
+  | |- rel _ (swallow _) => apply rel_swallow; rel_go3 tac
+  | |- rel _ (gather2 _ _) => apply rel_gather2; rel_go3 tac
+  | |- rel _ (if ?b then _ else _) => destruct b eqn:?; rel_go3 tac
+  | |- rel _ (match ?x with _ => _ end) => destruct x eqn:?; rel_go3 tac
+  | |- rel _ (let _ := _ in _) => cbv zeta; rel_go3 tac
+  | |- rel _ ?m =>
+      first [ solve [auto with rel_db]
+            | let h := head_of m in unfold h; rel_go3 tac ]
+  end.
+
+Definition cfg_inv (E : env) (s : bstate) : Prop :=
+  forall o v, dget (b_cfgval_cache s) o = Some v -> v = reported_cfg E s o.
+Definition descr_cfg_ok (E : env) (s : bstate) (d : descr) : Prop :=
+  dkeys (de_cfg d) = dkeys (de_objkeys d) /\
+  forall o v, dget (de_cfg d) o = Some v -> v = reported_cfg E s o.
+Definition cfgI (E : env) (s : bstate) : Prop :=
+  cfg_inv E s /\ forall d, In (DDescr d) (b_out s) -> descr_cfg_ok E s d.
+
+(* folds of dset *)
+Lemma fold_dset_keys {X V W} (l : list X) (kf : X -> nat) (f : X -> V) (g : X -> W) :
+  forall (a : dict V) (b : dict W), dkeys a = dkeys b ->
+  dkeys (fold_left (fun acc x => dset acc (kf x) (f x)) l a) =
+  dkeys (fold_left (fun acc x => dset acc (kf x) (g x)) l b).
+Proof.
+  induction l as [|x l IH]; intros a b H; cbn; [exact H|]. apply IH.
+  clear -H. revert b H. induction a as [|[k v] a IHa]; intros [|[k' w] b] H; cbn in *; try discriminate; [reflexivity|].
+  inversion H; subst. destruct (Nat.eqb (kf x) k'); cbn; [congruence|]. f_equal. apply IHa. assumption.
+Qed.
+Lemma fold_dset_get {X V} (l : list X) (kf : X -> nat) (f : X -> V) (P : nat -> V -> Prop) :
+  (forall x, In x l -> P (kf x) (f x)) ->
+  forall a, (forall k v, dget a k = Some v -> P k v) ->
+  forall k v, dget (fold_left (fun acc x => dset acc (kf x) (f x)) l a) k = Some v -> P k v.
+Proof.
+  induction l as [|x l IH]; intros Hl a Ha k v; cbn; [apply Ha|].
+  apply IH; [intros y Hy; apply Hl; right; exact Hy|].
+  intros k0 v0. rewrite dget_dset. destruct (Nat.eqb (kf x) k0) eqn:Ek.
+  - apply Nat.eqb_eq in Ek. subst k0. intros H; inversion H; subst. apply Hl. left. reflexivity.
+  - apply Ha.
+Qed.
+
+Definition cfgw_frame : preorder.
+Proof.
+  refine (mkPre (fun s s' => b_cfgval_cache s' = b_cfgval_cache s /\ w_cfg s' = w_cfg s) _ _).
+  - auto.
+  - intros a b c [A1 A2] [B1 B2]; split; congruence.
+Defined.
+Lemma cwf_prepare_stream nm od : rel cfgw_frame (prepare_stream nm od).
+Proof. unfold prepare_stream. rel_go ltac:(cbn; auto). Qed.
+
+Lemma reported_cfg_ext E s s' o : w_cfg s' = w_cfg s -> reported_cfg E s' o = reported_cfg E s o.
+Proof. intros H. unfold reported_cfg, dev_cfg. rewrite H. reflexivity. Qed.
+
+Lemma prepare_loop_ok (od : dict dks) : forall s s1 u,
+  iterM (fun od0 : obj * dks =>
+           bind get (fun s => bind (of_opt (dget (b_cfgval_cache s) (fst od0)) EKeyError)
+             (fun _ => guard (nmem (fst od0) (b_cfgdesc_cache s)) EKeyError))) od s = (s1, Ok u) ->
+  forall x, In x od -> exists v, dget (b_cfgval_cache s) (fst x) = Some v.
+Proof.
+  induction od as [|y od IH]; intros s s1 u H x Hx; [destruct Hx|].
+  cbn [iterM] in H. apply bind_ok in H. destruct H as (a & s2 & H1 & H2).
+  rewrite bind_get_eq, bind_of_opt_eq in H1.
+  match type of H1 with match ?t with _ => _ end = _ => destruct t as [v|] eqn:Ev end; [|discriminate H1].
+  assert (s2 = s) by (destruct (nmem _ _); cbn in H1; inversion H1; reflexivity). subst s2.
+  destruct Hx as [<-|Hx]; [exists v; exact Ev | eapply IH; eauto].
+Qed.
+
+Lemma cfgI_prepare_stream E nm od : rel (inv_pre (cfgI E)) (prepare_stream nm od).
+Proof.
+  intros s [C O]. pose proof (cwf_prepare_stream nm od s) as F.
+  destruct (prepare_stream nm od s) as [s' r] eqn:H. cbn [fst] in *. destruct F as [F1 F2].
+  pose proof H as Hs. apply prepare_stream_spec in Hs.
+  assert (C' : cfg_inv E s').
+  { intros o v. rewrite F1, (reported_cfg_ext E s s' o F2). apply C. }
+  split; [exact C'|].
+  destruct r as [d|e].
+  - destruct Hs as (_ & _ & D3 & D4 & _ & _ & _ & O2 & _ & _).
+    intros d' Hin. rewrite O2 in Hin. apply in_app_or in Hin. destruct Hin as [Hin|[Hd|[]]].
+    + destruct (O d' Hin) as [K V]. split; [exact K|]. intros o v Hg. rewrite (reported_cfg_ext E s s' o F2). eapply V; eauto.
+    + inversion Hd; subst d'. clear Hd.
+      (* the loop found a cached configuration for every object of the stream *)
+      unfold prepare_stream in H. apply bind_ok in H. destruct H as (a & s1 & HL & _).
+      pose proof (prepare_loop_ok od s s1 a HL) as Hall.
+      split.
+      * rewrite D3, D4. unfold stream_cfg, stream_objkeys. apply fold_dset_keys. reflexivity.
+      * intros o v Hg. rewrite D4 in Hg. rewrite (reported_cfg_ext E s s' o F2).
+        unfold stream_cfg in Hg.
+        apply (fold_dset_get od fst
+                 (fun x => match dget (b_cfgval_cache s) (fst x) with Some v0 => v0 | None => None end)
+                 (fun o0 v0 => v0 = reported_cfg E s o0)) in Hg; [exact Hg | | intros ? ? Hd; discriminate Hd].
+        intros x Hx. destruct (Hall x Hx) as (v0 & Hv0). rewrite Hv0. apply C. exact Hv0.
+  - destruct Hs as [_ O2]. intros d' Hin. rewrite O2 in Hin. destruct (O d' Hin) as [K V]. split; [exact K|].
+    intros o v Hg. rewrite (reported_cfg_ext E s s' o F2). eapply V; eauto.
+Qed.
+#[export] Hint Resolve cfgI_prepare_stream : rel_db.
+
+(* modify-goals: fields untouched, or one more non-descriptor document *)
+Ltac cinv_mod :=
+  first
+    [ inv_untouched
+    | let C := fresh in let O := fresh in let Hin := fresh in let Hx := fresh in
+      intros [C O]; split; [exact C|]; intros d0 Hin; cbn in Hin;
+      apply in_app_or in Hin; destruct Hin as [Hin|[Hx|[]]];
+      [ exact (O d0 Hin) | first [ discriminate Hx | subst; discriminate ] ] ].
+
+Lemma cfgI_cache_read_config E o : rel (inv_pre (cfgI E)) (cache_read_config E o).
+Proof.
+  intros s [C O]. unfold cache_read_config, call. destruct (dv_configurable (E o)) eqn:Hc; cbn.
+  - split; [|exact O]. intros o' v. cbn. rewrite dget_dset. destruct (Nat.eqb o o') eqn:Eo.
+    + apply Nat.eqb_eq in Eo. subst o'. intros H; inversion H; subst. unfold reported_cfg. rewrite Hc. reflexivity.
+    + apply C.
+  - split; [|exact O]. intros o' v. cbn. rewrite dget_dset. destruct (Nat.eqb o o') eqn:Eo.
+    + apply Nat.eqb_eq in Eo. subst o'. intros H; inversion H; subst. unfold reported_cfg. rewrite Hc. reflexivity.
+    + apply C.
+Qed.
+#[export] Hint Resolve cfgI_cache_read_config : rel_db.
+
+Lemma cfgI_ensure_all E l c : rel (inv_pre (cfgI E)) (ensure_cached_all E l c).
+Proof. induction l; cbn -[bind ret]; rel_go3 cinv_mod. Qed.
+Lemma cfgI_pack_loop E nm d l acc : rel (inv_pre (cfgI E)) (pack_loop nm d l acc).
+Proof. revert acc. induction l; intro acc; cbn -[bind ret]; rel_go3 cinv_mod. Qed.
+Lemma cfgI_collect_all E l i : rel (inv_pre (cfgI E)) (collect_all_assets E l i).
+Proof. induction l; cbn -[bind ret]; rel_go3 cinv_mod. Qed.
+#[export] Hint Resolve cfgI_ensure_all cfgI_pack_loop cfgI_collect_all : rel_db.
+
+Lemma cfgI_open_run E : rel (inv_pre (cfgI E)) open_run.
+Proof.
+  unfold open_run.
+  repeat (apply rel_bind; [rel_go3 cinv_mod | intro]).
+  match goal with |- rel _ (if ?b then _ else _) => destruct b; [|apply rel_ret] end.
+  apply rel_bind; [rel_go3 cinv_mod | intro iu].
+  apply (rel_bind_val _ _ _ (fun d => de_cfg d = [] /\ de_objkeys d = [])).
+  - intros ? ? ? H. apply compose_descriptor_ok in H. destruct H as (_ & _ & H3 & H4 & _). auto.
+  - unfold compose_descriptor. rel_go3 cinv_mod.
+  - intros d [Hd1 Hd2]. apply rel_bind; [rel_go3 cinv_mod | intros _].
+    unfold emit. apply rel_modify. intros s [C O]. split; [exact C|].
+    intros d0 Hin. cbn in Hin. apply in_app_or in Hin. destruct Hin as [Hin|[Hx|[]]]; [exact (O d0 Hin)|].
+    inversion Hx; subst d0. split; [rewrite Hd1, Hd2; reflexivity|]. intros o v Hg. rewrite Hd1 in Hg. discriminate Hg.
+Qed.
+
+Lemma cfgI_configure E o v : forall s, b_out s = [] -> cfgI E s -> cfgI E (fst (configure E o v s)).
+Proof.
+  intros s Hout [C O]. unfold configure. rewrite bind_get_eq, bind_guard_eq.
+  destruct (negb (b_bundling s)); cbn [fst]; [|split; assumption].
+  unfold call. rewrite !bind_modify_eq.
+  (* the device is configured, then its configuration is read again *)
+  match goal with |- cfgI E (fst (bind (cache_read_config E o) ?k ?s0)) =>
+    assert (R : forall a, rel (inv_pre (cfgI E)) (k a)) by (intro; rel_go3 cinv_mod);
+    assert (X : exists s1, cache_read_config E o s0 = (s1, Ok tt) /\ cfgI E s1)
+  end.
+  { unfold cache_read_config, call. destruct (dv_configurable (E o)) eqn:Hc; cbn; eexists; (split; [reflexivity|]).
+    - split; [|cbn; rewrite Hout; intros d []].
+      intros o' v'. cbn. rewrite dget_dset. destruct (Nat.eqb o o') eqn:Eo.
+      + apply Nat.eqb_eq in Eo. subst o'. intros H; inversion H; subst. unfold reported_cfg. rewrite Hc. reflexivity.
+      + intros H. rewrite (C o' v' H). unfold reported_cfg, dev_cfg. cbn. rewrite dget_dset, Eo. reflexivity.
+    - split; [|cbn; rewrite Hout; intros d []].
+      intros o' v'. cbn. rewrite dget_dset. destruct (Nat.eqb o o') eqn:Eo.
+      + apply Nat.eqb_eq in Eo. subst o'. intros H; inversion H; subst. unfold reported_cfg. rewrite Hc. reflexivity.
+      + intros H. rewrite (C o' v' H). unfold reported_cfg, dev_cfg. cbn. rewrite dget_dset, Eo. reflexivity. }
+  destruct X as (s1 & X1 & X2). unfold bind at 1; rewrite X1. apply (R tt s1 X2).
+Qed.
+
+Lemma bind_eq_ok' {A B} (m : M A) (k : A -> M B) s s1 a : m s = (s1, Ok a) -> bind m k s = k a s1.
+Proof. intros H. unfold bind. rewrite H. reflexivity. Qed.
+
+Lemma cfgI_exec E o s : b_out s = [] -> cfgI E s -> cfgI E (fst (exec E o s)).
+Proof.
+  intros Hout I. destruct o; cbn [exec];
+    try (apply cfgI_configure; assumption); try (apply cfgI_open_run; assumption);
+    match goal with |- cfgI E (fst (?m s)) =>
+      let R := fresh in assert (R : rel (inv_pre (cfgI E)) m) by (rel_go3 cinv_mod); exact (R s I) end.
+Qed.
+
+Lemma cfg_inv_reachable E s tr : reachable E s tr -> cfg_inv E s.
+Proof.
+  intros (st & ri & h & -> & _).
+  apply (reach_ind (fun s _ => cfg_inv E s)).
+  - intros o v H. discriminate H.
+  - intros s tr0 o C. unfold step. cbn [fst].
+    apply (cfgI_exec E o (clear_buffers s)); [reflexivity|]. split; [exact C | intros d []].
+Qed.
+
+(* every descriptor emitted records, for exactly the objects of its stream, what each reports as configuration *)
+Theorem descriptor_records_configuration E s tr o s' docs r :
+  reachable E s tr -> step E s o = (s', docs, r) ->
+  forall d, In (DDescr d) docs ->
+    dkeys (de_cfg d) = dkeys (de_objkeys d) /\
+    forall ob v, dget (de_cfg d) ob = Some v -> v = reported_cfg E s' ob.
+Proof.
+  intros Hr Hs d Hin. apply cfg_inv_reachable in Hr.
+  apply step_inv in Hs. destruct Hs as (r0 & He & -> & _).
+  pose proof (cfgI_exec E o (clear_buffers s) eq_refl) as I. rewrite He in I. cbn [fst] in I.
+  destruct I as [_ O]; [split; [exact Hr | intros d0 []]|]. exact (O d Hin).
+Qed.
+
+(* ---- registered descriptors agree with the object sets they were made from *)
+Definition dobjs_inv (s : bstate) : Prop :=
+  NoDup (dkeys (b_descriptors s)) /\
+  forall nm d od, dget (b_descriptors s) nm = Some d -> dget (b_descriptor_objs s) nm = Some od ->
+    de_keys d = stream_data_keys od /\ de_objkeys d = stream_objkeys od.
+
+Lemma dkeys_dset_in {V} (d : dict V) k v x : In x (dkeys (dset d k v)) <-> x = k \/ In x (dkeys d).
+Proof.
+  induction d as [|[k0 v0] d IH]; cbn; [intuition|].
+  destruct (Nat.eqb k k0) eqn:Ek; cbn.
+  - apply Nat.eqb_eq in Ek. subst. intuition.
+  - rewrite IH. intuition.
+Qed.
+Lemma nodup_dset {V} (d : dict V) k v : NoDup (dkeys d) -> NoDup (dkeys (dset d k v)).
+Proof.
+  induction d as [|[k0 v0] d IH]; cbn; intros H; [repeat constructor; intros []|].
+  inversion H as [|? ? Hn Hd]; subst. destruct (Nat.eqb k k0) eqn:Ek; cbn.
+  - apply Nat.eqb_eq in Ek. subst. constructor; assumption.
+  - constructor; [|apply IH; exact Hd]. intros Hin. apply dkeys_dset_in in Hin. destruct Hin as [->|Hin].
+    + rewrite Nat.eqb_refl in Ek. discriminate.
+    + contradiction.
+Qed.
+Lemma dkeys_ddel_in {V} (d : dict V) k x : In x (dkeys (ddel d k)) -> In x (dkeys d).
+Proof.
+  induction d as [|[k0 v0] d IH]; cbn; [auto|]. destruct (Nat.eqb k k0); cbn; intuition.
+Qed.
+Lemma nodup_ddel {V} (d : dict V) k : NoDup (dkeys d) -> NoDup (dkeys (ddel d k)).
+Proof.
+  induction d as [|[k0 v0] d IH]; cbn; intros H; [constructor|].
+  inversion H as [|? ? Hn Hd]; subst. destruct (Nat.eqb k k0); cbn; [apply IH; exact Hd|].
+  constructor; [|apply IH; exact Hd]. intros Hin. apply Hn. eapply dkeys_ddel_in; eauto.
+Qed.
+
+Ltac doinv_mod :=
+  first
+    [ inv_untouched
+    | let N := fresh in let H := fresh in
+      intros [N H]; split; [cbn; apply nodup_ddel; exact N|];
+      intros nm0 d0 od0 Hg Ho; cbn in *; apply dget_ddel_some in Hg; exact (H nm0 d0 od0 Hg Ho) ].
+
+Lemma doinv_prepare_stream nm od : rel (inv_pre dobjs_inv) (prepare_stream nm od).
+Proof.
+  intros s [N I]. destruct (prepare_stream nm od s) as [s' r] eqn:H. cbn [fst].
+  pose proof H as Hs. apply prepare_stream_spec in Hs.
+  destruct r as [d|e].
+  - destruct Hs as (_ & D2 & D3 & _ & _ & _ & F1 & _ & F3 & _).
+    split; [rewrite F1; apply nodup_dset; exact N|].
+    intros n d0 od0. rewrite F1, F3, !dget_dset. destruct (Nat.eqb nm n).
+    + intros Hd Ho. inversion Hd; inversion Ho; subst. auto.
+    + apply I.
+  - destruct Hs as [F1 _].
+    assert (F3 : b_descriptor_objs s' = b_descriptor_objs s).
+    { unfold prepare_stream in H. apply bind_err in H. destruct H as [H|(a & s1 & H1 & H)].
+      - pose proof (prepare_loop_state od s) as Hl. rewrite H in Hl. cbn in Hl. subst. reflexivity.
+      - pose proof (prepare_loop_state od s) as Hl. rewrite H1 in Hl. cbn in Hl. subst s1.
+        rewrite bind_get_eq in H. apply bind_err in H. destruct H as [H|(d & s2 & H2 & H)].
+        + pose proof (cdf_compose_descriptor None nm (stream_data_keys od) (stream_objkeys od)
+                        (stream_cfg (b_cfgval_cache s) od) s) as F. rewrite H in F. cbn in F.
+          apply (f_equal b_descriptor_objs) in F. exact F.
+        + unfold emit in H. rewrite !bind_modify_eq in H. discriminate H. }
+    split; [rewrite F1; exact N|]. intros n d0 od0. rewrite F1, F3. apply I.
+Qed.
+#[export] Hint Resolve doinv_prepare_stream : rel_db.
+
+Lemma doinv_ensure_all E l c : rel (inv_pre dobjs_inv) (ensure_cached_all E l c).
+Proof. induction l; cbn -[bind ret]; rel_go doinv_mod. Qed.
+Lemma doinv_pack_loop nm d l acc : rel (inv_pre dobjs_inv) (pack_loop nm d l acc).
+Proof. revert acc. induction l; intro acc; cbn -[bind ret]; rel_go doinv_mod. Qed.
+Lemma doinv_collect_all E l i : rel (inv_pre dobjs_inv) (collect_all_assets E l i).
+Proof. induction l; cbn -[bind ret]; rel_go doinv_mod. Qed.
+#[export] Hint Resolve doinv_ensure_all doinv_pack_loop doinv_collect_all : rel_db.
+
+Lemma doinv_exec E o : rel (inv_pre dobjs_inv) (exec E o).
+Proof. destruct o; cbn [exec]; rel_go doinv_mod. Qed.
+
+Lemma dobjs_inv_reachable E s tr : reachable E s tr -> dobjs_inv s.
+Proof.
+  intros (st & ri & h & -> & _).
+  apply (reach_ind (fun s _ => dobjs_inv s)).
+  - split; [constructor | intros nm d od H; discriminate H].
+  - intros s tr0 o I. unfold step. cbn [fst]. apply doinv_exec. exact I.
+Qed.
+
+(* ---- configure: the loop over the registered streams *)
+Definition cfg_body (o : obj) (nm : nat) : M unit :=
+  bind get (fun s => bind (of_opt (dget (b_descriptor_objs s) nm) EKeyError)
+    (fun obj_set => if dmem obj_set o
+                    then bind (modify (fun s1 => set_b_descriptors (ddel (b_descriptors s1) nm) s1))
+                           (fun _ => bind (prepare_stream nm obj_set) (fun _ => ret tt))
+                    else ret tt)).
+
+Definition is_descr (d : doc) : bool := match d with DDescr _ => true | _ => false end.
+
+Definition mono_frame : preorder.
+Proof.
+  refine (mkPre (fun s s' => b_cfgval_cache s' = b_cfgval_cache s /\ w_cfg s' = w_cfg s /\
+                             b_next_uid s <= b_next_uid s') _ _).
+  - auto.
+  - intros a b c (A1 & A2 & A3) (B1 & B2 & B3); repeat split; try congruence. lia.
+Defined.
+Lemma mf_fresh_uid : rel mono_frame fresh_uid.
+Proof. intros s. unfold fresh_uid. rewrite bind_get_eq, bind_modify_eq. cbn. auto. Qed.
+#[export] Hint Resolve mf_fresh_uid : rel_db.
+Lemma mf_prepare_stream nm od : rel mono_frame (prepare_stream nm od).
+Proof. unfold prepare_stream. rel_go ltac:(cbn; auto). Qed.
+
+Lemma cfg_body_ok o nm s s1 :
+  cfg_body o nm s = (s1, Ok tt) ->
+  exists od, dget (b_descriptor_objs s) nm = Some od /\
+    if dmem od o then
+      exists d, b_descriptors s1 = dset (ddel (b_descriptors s) nm) nm d /\ b_out s1 = b_out s ++ [DDescr d] /\
+                b_descriptor_objs s1 = dset (b_descriptor_objs s) nm od /\ de_name d = nm /\
+                de_keys d = stream_data_keys od /\ de_objkeys d = stream_objkeys od /\
+                de_uid d = UGen (b_next_uid s) /\
+                b_cfgval_cache s1 = b_cfgval_cache s /\ w_cfg s1 = w_cfg s /\ b_next_uid s <= b_next_uid s1
+    else s1 = s.
+Proof.
+  unfold cfg_body. rewrite bind_get_eq, bind_of_opt_eq.
+  destruct (dget (b_descriptor_objs s) nm) as [od|]; [|discriminate]. intros H. exists od. split; [reflexivity|].
+  destruct (dmem od o).
+  - rewrite bind_modify_eq in H. apply bind_ok in H. destruct H as (d & s2 & H1 & H2).
+    apply ret_ok in H2. destruct H2 as [-> _].
+    pose proof (mf_prepare_stream nm od (set_b_descriptors (ddel (b_descriptors s) nm) s)) as F. rewrite H1 in F. cbn in F. destruct F as (F1 & F2 & F3).
+    apply prepare_stream_spec in H1. destruct H1 as (D1 & D2 & D3 & _ & _ & D6 & P1 & P2 & P3 & _).
+    exists d. cbn in *. auto 12.
+  - apply ret_ok in H. destruct H as [-> _]. reflexivity.
+Qed.
+
+Lemma cfg_loop o : forall l s s',
+  NoDup l -> iterM (cfg_body o) l s = (s', Ok tt) ->
+  (forall nm od, In nm l -> dget (b_descriptor_objs s) nm = Some od -> dmem od o = true ->
+     exists d, In (DDescr d) (b_out s') /\ dget (b_descriptors s') nm = Some d /\ de_name d = nm /\
+               de_keys d = stream_data_keys od /\ de_objkeys d = stream_objkeys od /\
+               exists k, de_uid d = UGen k /\ b_next_uid s <= k) /\
+  (forall nm, (~ In nm l \/ exists od, dget (b_descriptor_objs s) nm = Some od /\ dmem od o = false) ->
+     dget (b_descriptors s') nm = dget (b_descriptors s) nm) /\
+  (forall nm, dget (b_descriptor_objs s') nm = dget (b_descriptor_objs s) nm) /\
+  b_cfgval_cache s' = b_cfgval_cache s /\ w_cfg s' = w_cfg s /\ b_next_uid s <= b_next_uid s' /\
+  exists out, b_out s' = b_out s ++ out /\ forallb is_descr out = true.
+Proof.
+  induction l as [|nm l IH]; intros s s' Hnd H; cbn [iterM] in H.
+  - apply ret_ok in H. destruct H as [-> _]. repeat split; auto; try (intros ? ? []).
+    exists []. rewrite app_nil_r. auto.
+  - apply bind_ok in H. destruct H as ([] & s1 & H1 & H2).
+    inversion Hnd as [|? ? Hnotin Hnd']; subst.
+    apply cfg_body_ok in H1. destruct H1 as (od1 & Ho1 & B).
+    specialize (IH s1 s' Hnd' H2). destruct IH as (IA & IB & IC & ID1 & ID2 & ID3 & out2 & IO & IN).
+    destruct (dmem od1 o) eqn:Em.
+    + destruct B as (d & B1 & B2 & B3 & B4 & B5 & B6 & B7 & B8 & B9 & B10).
+      assert (OBJ : forall n, dget (b_descriptor_objs s1) n = dget (b_descriptor_objs s) n).
+      { intros n. rewrite B3, dget_dset. destruct (Nat.eqb nm n) eqn:En; [|reflexivity].
+        apply Nat.eqb_eq in En. subst n. rewrite Ho1. reflexivity. }
+      split; [|split; [|split; [|split; [|split; [|split]]]]].
+      * intros n od [<-|Hin] Ho Hm.
+        -- rewrite Ho1 in Ho. inversion Ho; subst od. exists d.
+           split; [rewrite IO, B2; apply in_or_app; left; apply in_or_app; right; left; reflexivity|].
+           split; [rewrite (IB nm (or_introl Hnotin)), B1; apply dget_dset_eq|].
+           split; [exact B4|]. split; [exact B5|]. split; [exact B6|]. exists (b_next_uid s). split; [exact B7 | lia].
+        -- rewrite <- OBJ in Ho. destruct (IA n od Hin Ho Hm) as (d' & A1 & A2 & A3 & A4 & A5 & k & A6 & A7).
+           exists d'. repeat split; auto. exists k. split; [exact A6 | lia].
+      * intros n Hn. assert (Hne : nm <> n).
+        { intros <-. destruct Hn as [Hn|(od & Ho & Hm)]; [apply Hn; left; reflexivity|].
+          rewrite Ho1 in Ho. inversion Ho; subst. congruence. }
+        rewrite IB.
+        -- rewrite B1, dget_dset_neq by exact Hne.
+           clear -Hne. induction (b_descriptors s) as [|[k0 v0] dd IHd]; cbn; [reflexivity|].
+           destruct (Nat.eqb nm k0) eqn:Ek; cbn.
+           ++ apply Nat.eqb_eq in Ek. subst k0. destruct (Nat.eqb n nm) eqn:E2; [apply Nat.eqb_eq in E2; congruence | exact IHd].
+           ++ destruct (Nat.eqb n k0); [reflexivity | exact IHd].
+        -- destruct Hn as [Hn|(od & Ho & Hm)]; [left; intros Hin; apply Hn; right; exact Hin|].
+           right. exists od. rewrite OBJ. auto.
+      * intros n. rewrite IC. apply OBJ.
+      * congruence.
+      * congruence.
+      * lia.
+      * exists ([DDescr d] ++ out2). rewrite IO, B2, <- app_assoc. split; [reflexivity|]. cbn. exact IN.
+    + subst s1. split; [|split; [|split; [|split; [|split; [|split]]]]]; auto.
+      * intros n od [<-|Hin] Ho Hm; [rewrite Ho1 in Ho; inversion Ho; subst; congruence|]. apply IA; assumption.
+      * intros n Hn. apply IB. destruct Hn as [Hn|Hn]; [|right; exact Hn].
+        destruct (Nat.eq_dec nm n) as [<-|Hne]; [right; exists od1; auto | left; intros Hin; apply Hn; right; exact Hin].
+      * exists out2. auto.
+Qed.
+
+Lemma fold_dset_in_keys {X V} (l : list X) (kf : X -> nat) (f : X -> V) k :
+  forall a, (In k (dkeys a) \/ exists x, In x l /\ kf x = k) ->
+  In k (dkeys (fold_left (fun acc x => dset acc (kf x) (f x)) l a)).
+Proof.
+  induction l as [|y l IH]; intros a H; cbn.
+  - destruct H as [H|(x & [] & _)]. exact H.
+  - apply IH. destruct H as [H|(x & [<-|Hx] & Hk)].
+    + left. apply dkeys_dset_in. right. exact H.
+    + left. apply dkeys_dset_in. left. symmetry. exact Hk.
+    + right. exists x. auto.
+Qed.
+Lemma dmem_in_keys {V} (d : dict V) k : dmem d k = true -> exists v, In (k, v) d.
+Proof.
+  unfold dmem. induction d as [|[k0 v0] d IH]; cbn; [discriminate|].
+  destruct (Nat.eqb k k0) eqn:Ek.
+  - apply Nat.eqb_eq in Ek. subst. intros _. exists v0. left. reflexivity.
+  - intros H. destruct (IH H) as (v & Hv). exists v. right. exact Hv.
+Qed.
+
+Definition crc_frame : preorder.
+Proof.
+  refine (mkPre (fun s s' => b_descriptors s' = b_descriptors s /\ b_descriptor_objs s' = b_descriptor_objs s /\
+                             b_out s' = b_out s /\ b_next_uid s' = b_next_uid s /\ w_cfg s' = w_cfg s) _ _).
+  - auto 6.
+  - intros a b c (A1 & A2 & A3 & A4 & A5) (B1 & B2 & B3 & B4 & B5); repeat split; congruence.
+Defined.
+Lemma crcf_cache_read_config E o : rel crc_frame (cache_read_config E o).
+Proof. unfold cache_read_config. rel_go ltac:(cbn; auto 6). Qed.
+
+Theorem configure_redescribes E s tr o v s' docs :
+  reachable E s tr -> step E s (OConfigure o v) = (s', docs, ROk) ->
+  (forall nm d_old od, dget (b_descriptors s) nm = Some d_old -> dget (b_descriptor_objs s) nm = Some od ->
+     if dmem od o then
+       exists d', In (DDescr d') docs /\ dget (b_descriptors s') nm = Some d' /\ de_name d' = nm /\
+                  de_keys d' = de_keys d_old /\ de_objkeys d' = de_objkeys d_old /\
+                  (exists k, de_uid d' = UGen k /\ b_next_uid s <= k) /\
+                  (dv_configurable (E o) = true -> dget (de_cfg d') o = Some (Some v))
+     else dget (b_descriptors s') nm = Some d_old) /\
+  forallb is_descr docs = true /\ dev_cfg s' o = v.
+Proof.
+  intros Hr Hs. pose proof (dobjs_inv_reachable _ _ _ Hr) as [ND DI].
+  pose proof (descriptor_records_configuration _ _ _ _ _ _ _ Hr Hs) as CFG.
+  apply step_inv in Hs. destruct Hs as (r0 & He & -> & Hr0). symmetry in Hr0. apply to_result_ok in Hr0. subst r0.
+  cbn [exec] in He. unfold configure in He. rewrite bind_get_eq, bind_guard_eq in He.
+  destruct (negb (b_bundling (clear_buffers s))); [|discriminate He].
+  unfold call in He. rewrite !bind_modify_eq in He.
+  apply bind_ok in He. destruct He as ([] & s2 & H1 & H2).
+  match type of H1 with cache_read_config E o ?s1 = _ =>
+    pose proof (crcf_cache_read_config E o s1) as F; rewrite H1 in F; cbn in F;
+    destruct F as (F1 & F2 & F3 & F4 & F5) end.
+  rewrite bind_get_eq in H2. change (iterM (cfg_body o) (dkeys (b_descriptors s2)) s2 = (s', Ok tt)) in H2.
+  apply cfg_loop in H2; [|rewrite F1; exact ND].
+  destruct H2 as (LA & LB & LC & LD1 & LD2 & LD3 & out & LO & LN).
+  rewrite F3 in LO. cbn in LO.
+  assert (Hcfg : dev_cfg s' o = v).
+  { unfold dev_cfg. rewrite LD2, F5, dget_dset_eq. reflexivity. }
+  split; [|split; [rewrite LO; exact LN | exact Hcfg]].
+  intros nm d_old od Hd Ho. destruct (dmem od o) eqn:Em.
+  - assert (Hin : In nm (dkeys (b_descriptors s2))).
+    { rewrite F1. clear -Hd. induction (b_descriptors s) as [|[k0 v0] dd IH]; cbn in *; [discriminate|].
+      destruct (Nat.eqb nm k0) eqn:Ek; [left; symmetry; apply Nat.eqb_eq; exact Ek | right; apply IH; exact Hd]. }
+    rewrite <- F2 in Ho. destruct (LA nm od Hin Ho Em) as (d' & A1 & A2 & A3 & A4 & A5 & k & A6 & A7).
+    rewrite F2 in Ho. destruct (DI nm d_old od Hd Ho) as [K1 K2].
+    exists d'. split; [exact A1|]. split; [exact A2|]. split; [exact A3|]. split; [congruence|]. split; [congruence|].
+    split; [exists k; split; [exact A6 | rewrite F4 in A7; exact A7]|].
+    intros Hc. destruct (CFG d' A1) as [CK CV].
+    assert (Hk : In o (dkeys (de_cfg d'))).
+    { rewrite CK, A5. unfold stream_objkeys. apply fold_dset_in_keys. right.
+      apply dmem_in_keys in Em. destruct Em as (dk & Hdk). exists (o, dk). auto. }
+    apply dget_in_keys in Hk. destruct Hk as (x & Hx). rewrite Hx. f_equal.
+    rewrite (CV o x Hx). unfold reported_cfg. rewrite Hc, Hcfg. reflexivity.
+  - rewrite LB; [rewrite F1; exact Hd|]. right. exists od. rewrite F2. auto.
+Qed.
+
+(* ---- descriptor uids come from the supply: every one emitted so far is below it (so "uid >= supply" means new) *)
+Definition uid_inv (tr : list doc) (s : bstate) : Prop :=
+  forall d, In (DDescr d) (tr ++ b_out s) -> exists k, de_uid d = UGen k /\ k < b_next_uid s.
+
+Ltac uinv_mod :=
+  first
+    [ inv_untouched
+    | let H := fresh in let Hin := fresh in let Hx := fresh in
+      intros H d0 Hin; cbn in Hin; rewrite app_assoc in Hin;
+      apply in_app_or in Hin; destruct Hin as [Hin|[Hx|[]]];
+      [ exact (H d0 Hin) | first [ discriminate Hx | subst; discriminate ] ] ].
+
+Lemma uinv_fresh_uid tr : rel (inv_pre (uid_inv tr)) fresh_uid.
+Proof.
+  intros s H. unfold fresh_uid. rewrite bind_get_eq, bind_modify_eq. cbn.
+  intros d Hin. destruct (H d Hin) as (k & K1 & K2). exists k. split; [exact K1 | cbn; lia].
+Qed.
+#[export] Hint Resolve uinv_fresh_uid : rel_db.
+
+Definition nu_frame : preorder.
+Proof. refine (mkPre (fun s s' => b_next_uid s' = b_next_uid s) _ _); [auto | intros a b c H1 H2; congruence]. Defined.
+
+Lemma compose_descriptor_supply nm dk ok cfg s s1 d :
+  compose_descriptor None nm dk ok cfg s = (s1, Ok d) -> b_next_uid s1 = S (b_next_uid s).
+Proof.
+  unfold compose_descriptor, fresh_uid. intros H. minv.
+  match goal with H : (if dmem _ _ then _ else _) _ = _ |- _ => destruct (dmem (b_streams s) nm); minv; reflexivity end.
+Qed.
+
+Lemma uinv_prepare_stream tr nm od : rel (inv_pre (uid_inv tr)) (prepare_stream nm od).
+Proof.
+  intros s I. pose proof (mf_prepare_stream nm od s) as M.
+  destruct (prepare_stream nm od s) as [s' r] eqn:H. cbn [fst] in *. destruct M as (_ & _ & M3).
+  pose proof H as Hs. apply prepare_stream_spec in Hs.
+  destruct r as [d|e].
+  - destruct Hs as (_ & _ & _ & _ & _ & D6 & _ & O2 & _ & _).
+    assert (Hn : b_next_uid s < b_next_uid s').
+    { unfold prepare_stream in H. unfold emit in H. minv.
+      match goal with H : iterM _ od s = (?x, Ok _) |- _ =>
+        pose proof (prepare_loop_state od s) as Hl; rewrite H in Hl; cbn in Hl; subst x end.
+      match goal with H : compose_descriptor None _ _ _ _ s = _ |- _ => apply compose_descriptor_supply in H; cbn; lia end. }
+    intros d0 Hin. rewrite O2, app_assoc in Hin. apply in_app_or in Hin. destruct Hin as [Hin|[Hx|[]]].
+    + destruct (I d0 Hin) as (k & K1 & K2). exists k. split; [exact K1 | lia].
+    + inversion Hx; subst d0. exists (b_next_uid s). split; [exact D6 | exact Hn].
+  - destruct Hs as [_ O2]. intros d0 Hin. rewrite O2 in Hin. destruct (I d0 Hin) as (k & K1 & K2).
+    exists k. split; [exact K1 | lia].
+Qed.
+#[export] Hint Resolve uinv_prepare_stream : rel_db.
+
+Lemma nuf_compose_descriptor_some u nm dk ok cfg : rel nu_frame (compose_descriptor (Some u) nm dk ok cfg).
+Proof. unfold compose_descriptor. rel_go ltac:(reflexivity). Qed.
+Definition outnu_frame : preorder.
+Proof.
+  refine (mkPre (fun s s' => b_next_uid s' = b_next_uid s /\ b_out s' = b_out s) _ _);
+    [auto | intros a b c [A1 A2] [B1 B2]; split; congruence].
+Defined.
+Lemma onf_compose_descriptor_some u nm dk ok cfg : rel outnu_frame (compose_descriptor (Some u) nm dk ok cfg).
+Proof. unfold compose_descriptor. rel_go ltac:(cbn; auto). Qed.
+
+Lemma uinv_open_run tr : rel (inv_pre (uid_inv tr)) open_run.
+Proof.
+  unfold open_run.
+  repeat (apply rel_bind; [rel_go3 uinv_mod | intro]).
+  match goal with |- rel _ (if ?b then _ else _) => destruct b; [|apply rel_ret] end.
+  intros s I. unfold fresh_uid. rewrite bind_bind_eq, bind_get_eq, bind_bind_eq, bind_modify_eq, bind_ret_eq.
+  unfold bind at 1.
+  match goal with |- context [compose_descriptor (Some ?u) ?a ?b ?c ?d ?s0] =>
+    pose proof (onf_compose_descriptor_some u a b c d s0) as F;
+    destruct (compose_descriptor (Some u) a b c d s0) as [s1 [dd|e]] eqn:Hc end; cbn in F; destruct F as [F1 F2].
+  - apply compose_descriptor_ok in Hc. destruct Hc as (_ & _ & _ & _ & _ & Hu).
+    rewrite bind_modify_eq. unfold emit, modify. cbn.
+    intros d0 Hin. rewrite F2 in Hin. cbn in Hin. rewrite app_assoc in Hin.
+    apply in_app_or in Hin. destruct Hin as [Hin|[Hx|[]]].
+    + destruct (I d0 Hin) as (k & K1 & K2). exists k. split; [exact K1 | cbn; rewrite F1; cbn; lia].
+    + inversion Hx; subst d0. exists (b_next_uid s). split; [exact Hu | cbn; rewrite F1; cbn; lia].
+  - cbn. intros d0 Hin. rewrite F2 in Hin. cbn in Hin. destruct (I d0 Hin) as (k & K1 & K2).
+    exists k. split; [exact K1 | cbn; rewrite F1; cbn; lia].
+Qed.
+
+Lemma uinv_ensure_all tr E l c : rel (inv_pre (uid_inv tr)) (ensure_cached_all E l c).
+Proof. induction l; cbn -[bind ret]; rel_go3 uinv_mod. Qed.
+Lemma uinv_pack_loop tr nm d l acc : rel (inv_pre (uid_inv tr)) (pack_loop nm d l acc).
+Proof. revert acc. induction l; intro acc; cbn -[bind ret]; rel_go3 uinv_mod. Qed.
+Lemma uinv_collect_all tr E l i : rel (inv_pre (uid_inv tr)) (collect_all_assets E l i).
+Proof. induction l; cbn -[bind ret]; rel_go3 uinv_mod. Qed.
+#[export] Hint Resolve uinv_ensure_all uinv_pack_loop uinv_collect_all : rel_db.
+
+Lemma uinv_exec tr E o : rel (inv_pre (uid_inv tr)) (exec E o).
+Proof. destruct o; cbn [exec]; try apply uinv_open_run; rel_go3 uinv_mod. Qed.
+
+Theorem descriptor_uids_below_supply E s tr :
+  reachable E s tr -> forall d, In (DDescr d) tr -> exists k, de_uid d = UGen k /\ k < b_next_uid s.
+Proof.
+  intros (st & ri & h & -> & ->).
+  assert (G : uid_inv (trace E (init st ri) h) (clear_buffers (final E (init st ri) h))).
+  { apply (reach_ind (fun s tr => uid_inv tr (clear_buffers s))).
+    - intros d [].
+    - intros s tr o I. unfold step. cbn [fst snd].
+      pose proof (uinv_exec tr E o (clear_buffers s) I) as I1.
+      intros d Hin. cbn in Hin. rewrite app_nil_r in Hin. exact (I1 d Hin). }
+  intros d Hin. apply (G d). cbn. rewrite app_nil_r. exact Hin.
+Qed.
